@@ -551,3 +551,73 @@ def gen_kb_history(rng, length, full_shape=True):
         else:
             ops += [o for o in gen_api_history(rng, 3) if full_shape or not o.startswith("opt full_shape")]
     return ops[:length]
+
+
+# ---------------------------------------------------------------------------
+# round 4, stage 2: ascii_composer / ascii_segmentor on the synth_ascii_* schemas
+# ---------------------------------------------------------------------------
+
+SYNTH_ASCII = ["synth_ascii_express", "synth_ascii_fluid"]   # stock chain order: ascii_composer, key_binder, speller, punctuator, ...
+XK_EISU = 0xff30
+
+
+def ac_tap(rng, name, quick=None):
+    """press + release of a mode-switch key with the virtual clock advanced in between: within the 500 ms
+    window (a toggle), exactly on its edge (499 / 500 / 501) or far beyond it"""
+    code = XK[name]
+    mod_bit = SHIFT if name.startswith("Shift") else CTRL
+    if quick is None:
+        quick = rng.random() < 0.7
+    gap = rng.choice([0, 1, 120, 499]) if quick else rng.choice([500, 501, 900])
+    return [key(code), "tick %d" % gap, key(code, mod_bit | RELEASE)]
+
+
+def gen_ascii_history(rng, length, full_shape=True):
+    """Mode-switch keys of every style (taps of both Shifts and both Controls inside / on the edge of / beyond the
+    tap window, interrupted taps, Caps_Lock with and without the Lock modifier, Eisu_toggle, releases without a
+    press), typing in ascii mode while composing (inline ascii) and while idle, letters with Caps Lock on,
+    candidates selected partially before a switch, mixed with the key binder's keys, punctuation, navigation
+    and arbitrary API ops."""
+    ops = []
+    mods = ["Shift_L", "Shift_R", "Control_L", "Control_R"]
+    while len(ops) < length:
+        r = rng.random()
+        if r < 0.25:
+            for _ in range(rng.choice([1, 2, 3, 4])):
+                ops.append(key(ord(rng.choice(LETTERS))))
+        elif r < 0.45:
+            ops += ac_tap(rng, rng.choice(mods))
+        elif r < 0.50:
+            # a tap interrupted by another key, two modifiers overlapping, or a release without a press
+            a, b = rng.choice(mods), rng.choice(mods)
+            ops += rng.choice([
+                [key(XK[a]), key(ord(rng.choice(LETTERS)), SHIFT if a.startswith("Shift") else CTRL), key(XK[a], RELEASE | (SHIFT if a.startswith("Shift") else CTRL))],
+                [key(XK[a]), key(XK[b]), "tick 10", key(XK[b], RELEASE), key(XK[a], RELEASE)],
+                [key(XK[a]), key(XK[b]), "tick 10", key(XK[a], RELEASE), key(XK[b], RELEASE)],
+                [key(XK[a], RELEASE)],
+                [key(XK[a]), key(XK[a]), "tick 400", key(XK[a], RELEASE)],
+            ])
+        elif r < 0.58:
+            lock = rng.choice([0, 0, LOCK])
+            ops += rng.choice([[key(XK["Caps_Lock"], lock)], [key(XK["Caps_Lock"], lock), key(XK["Caps_Lock"], lock | RELEASE)],
+                               [key(XK_EISU)], [key(XK_EISU), key(XK_EISU, RELEASE)]])
+        elif r < 0.66:
+            # typing with the Lock modifier set (Caps Lock on): letters, digits, punctuation, Control+letter
+            for _ in range(rng.choice([1, 2, 3])):
+                ops.append(key(ord(rng.choice("abzAZ19,. ;")), LOCK | rng.choice([0, 0, 0, SHIFT, CTRL, RELEASE])))
+        elif r < 0.74:
+            # printable keys of every kind (ascii mode pushes them all, 0x7f included), some released
+            for _ in range(rng.choice([1, 2, 3])):
+                ops.append(key(rng.choice([0x20, 0x21, 0x2c, 0x30, 0x39, 0x41, 0x5a, 0x61, 0x7a, 0x7e, 0x7f, 0x80, 0x1f]),
+                               rng.choice([0, 0, 0, SHIFT, RELEASE])))
+        elif r < 0.80:
+            ops += [rng.choice(["sel %d" % rng.randrange(0, 12), "selp %d" % rng.randrange(0, 5), "hl %d" % rng.randrange(0, 9)])]
+        elif r < 0.86:
+            ops.append(key(XK[rng.choice(["space", "BackSpace", "Return", "Escape", "Left", "Right", "Home", "End", "Down", "Next"])]))
+        elif r < 0.90:
+            ops.append("opt ascii_mode %d" % rng.randrange(0, 2))
+        elif r < 0.95:
+            ops += gen_kb_history(rng, 2, full_shape=full_shape)
+        else:
+            ops += [o for o in gen_api_history(rng, 3) if full_shape or not o.startswith("opt full_shape")]
+    return ops[:length]
